@@ -23,7 +23,10 @@ ASSUMPTIONS = ['forwarding forms (operators, Wrapping, Checked, trait methods) a
 EQ_WIDTHS = [1, 2, 3, 4, 5, 6, 7, 8, 9, 10, 11, 12, 16, 32, 64, 128]
 WIDE_SQ = {1, 2, 3, 4, 5, 6, 7, 8, 12, 16, 32, 64, 128}
 MIXED = [(1, 2), (2, 1), (3, 1), (2, 4), (4, 2), (3, 5), (5, 3), (4, 8), (8, 4), (1, 8), (7, 2), (6, 10), (12, 4),
-         (16, 8), (8, 16), (16, 32), (32, 16), (64, 32)]
+         (16, 8), (8, 16), (16, 32), (32, 16), (64, 32),
+         # a dispatch width on the LEFT with a wider right operand, and on both sides of every dispatch width
+         # (seed C03-m1: `LIMBS == 32 && RHS_LIMBS >= 32` sends 32 x 64 to the 32-limb Karatsuba routine)
+         (16, 24), (32, 64), (64, 128), (128, 64), (64, 16)]
 WIDE_MIXED = {p for p in MIXED if p[0] + p[1] <= 16}
 
 
